@@ -336,7 +336,7 @@ def bucket_brokers(ctx: Ctx, rule="R-C13-FIELDS") -> None:
     ok = len(sc) == 1 and dotted(sc[0].args[0]) == "id_" and unparse(sc[0].args[1]) == "payload.encode()"
     ctx.check(ok, rule, st, "redis store_bucket: SET id_ <encoded bucket>", "set(id_, payload.encode())", f"redis store_bucket does {unparse(sc[0])[:80] if sc else 'nothing'}", instance="redis store")
     if sc:
-        ex = C.kw(sc[0], "exat")
+        ex = C.call_as_expr(ctx, st, C.inline_locals(st, C.kw(sc[0], "exat"), calls="all"))
         t = C.negate_aware_ifexp(ex) if ex is not None else None
         ok = t is not None and isinstance(t[0], ast.Compare) and dotted(t[0].left) == "payload.ttl" and C.is_const(t[0].comparators[0], None) and C.is_const(t[1], None) \
             and isinstance(t[2], ast.BinOp) and isinstance(t[2].op, ast.Add) and {dotted(t[2].left), dotted(t[2].right)} == {"payload.timestamp", "payload.ttl"}
